@@ -1350,6 +1350,11 @@ class Interp:
             name = n.func.attr
             if isinstance(recv, VStr):
                 args, kwargs = self.eval_args(n)
+                if recv.is_bytes and name in ('append', 'extend'):
+                    a0 = unopt(self, args[0])
+                    add = z3.StrFromCode(coerce(a0, Int).t) if name == 'append' else a0.t
+                    self.store_back(n.func.value, VStr(z3.Concat(recv.t, add), True), recv)
+                    return NONE
                 return lib.str_method(self, recv, name, args, kwargs)
             if isinstance(recv, (VList, VSet, VBag, VDict)):
                 args, kwargs = self.eval_args(n)
@@ -1636,6 +1641,10 @@ def _b_bytes(I, args, kw):
         h = I.spec.calls.get('bytes')
         if h:
             return h(I, None, args, kw)
+    if isinstance(v, VList) and v.ek is Int:
+        return lib.bytes_of_list(I, v)
+    if isinstance(v, VGen):
+        v = VTuple(v.items)
     if isinstance(v, (VCList, VTuple)):
         parts = [z3.StrFromCode(coerce(x, Int).t) for x in v.items]
         return VStr(z3.Concat(*parts) if len(parts) > 1 else (parts[0] if parts else z3.StringVal('')), True)
@@ -1692,6 +1701,8 @@ def _b_list(I, args, kw):
     if not args:
         return VCList([])
     v = unopt(I, args[0])
+    if isinstance(v, VStr) and v.is_bytes:
+        return lib.list_of_bytes(I, v)
     if isinstance(v, (VTuple, VCList, VGen)):
         return VCList(v.items)
     if isinstance(v, VList):
@@ -1846,6 +1857,14 @@ def _b_id(I, args, kw):
 
 def _b_enumerate(I, args, kw):
     v = unopt(I, args[0])
+    if isinstance(v, VStr) and v.is_bytes:
+        v = lib.list_of_bytes(I, v)
+    if isinstance(v, VList):
+        # list of (index, element): index array is the identity shifted to the window
+        idx = core.fresh('enum_idx', z3.ArraySort(z3.IntSort(), z3.IntSort()))
+        i = core.fresh('ei', z3.IntSort())
+        I.assume(z3.ForAll([i], z3.Select(idx, i) == i - v.lo))
+        return VList(Tup(Int, v.ek), [idx] + list(v.arrs), v.lo, v.hi)
     if isinstance(v, (VTuple, VCList, VGen)):
         return VTuple([VTuple([VInt(i), x]) for i, x in enumerate(v.items)])
     raise Unsupported('enumerate(%r)' % (v,))
